@@ -13,9 +13,11 @@
     sync pods|apps|all
     drop <i>
     filter <ns> <name> <nodes> <first> <pick> <fault>
+    preempt <ns> <name> <nodes> <first> <pick> <fault>      (Preempt: getSubnet without the pod lock; answer = nodes kept)
     bind <ns> <name> <uid> <node> <first> <pick> <fault> <pfault>
     deliver <i> <fault> <pfault>
     resync <order> <fault> <pfault>
+    admres <ip> <text> <policy> | admunres <ip>      (administrator's reservation: labelled object + its watch event)
     resyncsnap                                       (fetchChecklist: the snapshot is kept)
     resyncrec <ip> <fault> <pfault>                  (one iteration of the resync loop for a snapshot entry)
     syncips <fault>
@@ -171,6 +173,9 @@ def parseMove (w : List String) : Option (String × Move) :=
   | ["filter", ns, name, nodes, first, pick, fault] => do
     let f ← parseOptNat first; let p ← parseOptNat pick; let k ← fault.toNat?
     pure ("filter", .filter ns name (splitList "," nodes) { first := f, pick := p } k)
+  | ["preempt", ns, name, nodes, first, pick, fault] => do
+    let f ← parseOptNat first; let p ← parseOptNat pick; let k ← fault.toNat?
+    pure ("filter", .preempt ns name (splitList "," nodes) { first := f, pick := p } k)
   | ["bind", ns, name, uid, node, first, pick, fault, pfault] => do
     let u ← uid.toNat?; let f ← parseOptNat first; let p ← parseOptNat pick
     let k ← fault.toNat?; let pk ← pfault.toNat?
@@ -179,6 +184,9 @@ def parseMove (w : List String) : Option (String × Move) :=
     let n ← i.toNat?; let k ← fault.toNat?; let pk ← pfault.toNat?; pure ("", .deliver n k pk)
   | ["resync", order, fault, pfault] => do
     let o ← parseNats "," order; let k ← fault.toNat?; let pk ← pfault.toNat?; pure ("", .resync o k pk)
+  | ["admres", ip, text, policy] => do
+    let i ← ip.toNat?; let pol ← policy.toNat?; pure ("", .adminReserve i (unTilde text) pol)
+  | ["admunres", ip] => do let i ← ip.toNat?; pure ("", .adminUnreserve i)
   | ["resyncsnap"] => some ("", .resyncSnap)
   | ["resyncrec", ip, fault, pfault] => do
     let i ← ip.toNat?; let k ← fault.toNat?; let pk ← pfault.toNat?; pure ("", .resyncRec i k pk)
